@@ -75,6 +75,7 @@ func main() {
 		mapperm   = flag.Bool("mapperm", false, "nondeterministic map iteration order")
 		slack     = flag.Int("appendslack", 0, "extra capacity on append reallocation")
 		fpreal    = flag.Bool("fpreal", false, "float64 as ideal reals with absolute rounding error (see fpreal.go)")
+		concoff   = flag.Bool("concoff", false, "case-split symbolic slice offsets")
 		verbose   = flag.Bool("v", false, "verbose / crash on engine errors")
 		maxViol   = flag.Int("maxviol", 20, "max violations recorded")
 		slog      = flag.String("solverlog", "", "write worker-0 solver input to file")
@@ -162,7 +163,7 @@ func main() {
 	worst := 0
 	for _, ent := range strings.Split(*entry, ",") {
 		res := runEntry(prog, pkgs, ent, *pkgPath, pm, loadS, runOpts{unwind: *unwind, maxSteps: *maxSteps, maxPaths: *maxPaths, maxAlloc: *maxAlloc,
-			qtimeout: *qtimeout, solver: *solver, workers: *workers, mapperm: *mapperm, fpreal: *fpreal, slack: *slack, verbose: *verbose, maxViol: *maxViol,
+			qtimeout: *qtimeout, solver: *solver, workers: *workers, mapperm: *mapperm, fpreal: *fpreal, concoff: *concoff,slack: *slack, verbose: *verbose, maxViol: *maxViol,
 			slog: *slog, deadline: *deadline, allowEnds: *allowEnds})
 		results = append(results, res)
 		code := 0
@@ -186,7 +187,7 @@ func main() {
 type runOpts struct {
 	unwind, maxSteps, maxPaths, maxAlloc, qtimeout, workers, slack, maxViol, deadline int
 	solver, slog, allowEnds                                                            string
-	mapperm, verbose, fpreal                                                           bool
+	mapperm, verbose, fpreal, concoff                                                  bool
 }
 
 func runEntry(prog *ssa.Program, pkgs []*ssa.Package, entry, pkgPath string, pm map[string]int64, loadS float64, o runOpts) *Result {
@@ -205,7 +206,7 @@ func runEntry(prog *ssa.Program, pkgs []*ssa.Package, entry, pkgPath string, pm 
 		return &Result{Entry: entry, Verdict: "inconclusive", Reasons: []string{"entry function not found"}}
 	}
 	c := Config{Unwind: o.unwind, MaxSteps: o.maxSteps, MaxPaths: o.maxPaths, MaxAlloc: o.maxAlloc, QTimeoutMs: o.qtimeout,
-		Solver: o.solver, Workers: o.workers, Params: pm, MapPerm: o.mapperm, FPReal: o.fpreal, AppendSlack: o.slack, Verbose: o.verbose,
+		Solver: o.solver, Workers: o.workers, Params: pm, MapPerm: o.mapperm, FPReal: o.fpreal, ConcOff: o.concoff,AppendSlack: o.slack, Verbose: o.verbose,
 		MaxViol: o.maxViol, SolverLog: o.slog}
 	if o.deadline > 0 {
 		c.Deadline = time.Now().Add(time.Duration(o.deadline) * time.Second)
